@@ -23,7 +23,7 @@ func (h *H) Failf(format string, args ...any) {
 	}
 }
 
-func (h *H) Failed() bool   { return h.msg != "" }
+func (h *H) Failed() bool    { return h.msg != "" }
 func (h *H) Message() string { return h.msg }
 
 // Panics runs f and reports whether it panicked.
@@ -102,7 +102,7 @@ func Lens[S, A any](h *H, l optics.Lens[S, A], addr func(*S) *A) {
 		h.Failf("Put returned %p, not the struct pointer %p it was given", ret, p)
 		return
 	}
-	if d := ar.Diff(before, ar.Snapshot(), Patch{unsafe.Pointer(focus), unsafe.Pointer(&got), at}); d != "" {
+	if d := ar.Diff(before, ar.Snapshot(), Patch{Addr: unsafe.Pointer(focus), Src: unsafe.Pointer(&got), Type: at}); d != "" {
 		h.Failf("GetPut violated: Put(p, Get(p)): %s", d)
 		return
 	}
@@ -113,7 +113,7 @@ func Lens[S, A any](h *H, l optics.Lens[S, A], addr func(*S) *A) {
 		return
 	}
 	after1 := ar.Snapshot()
-	if d := ar.Diff(before, after1, Patch{unsafe.Pointer(focus), unsafe.Pointer(&v1), at}); d != "" {
+	if d := ar.Diff(before, after1, Patch{Addr: unsafe.Pointer(focus), Src: unsafe.Pointer(&v1), Type: at}); d != "" {
 		h.Failf("Put(%s): %s", show(v1), d)
 		return
 	}
@@ -125,7 +125,7 @@ func Lens[S, A any](h *H, l optics.Lens[S, A], addr func(*S) *A) {
 	}
 	// PutPut: the second Put wins, image as if only it had happened
 	l.Put(p, v2)
-	if d := ar.Diff(before, ar.Snapshot(), Patch{unsafe.Pointer(focus), unsafe.Pointer(&v2), at}); d != "" {
+	if d := ar.Diff(before, ar.Snapshot(), Patch{Addr: unsafe.Pointer(focus), Src: unsafe.Pointer(&v2), Type: at}); d != "" {
 		h.Failf("PutPut violated: Put(%s) then Put(%s): %s", show(v1), show(v2), d)
 		return
 	}
@@ -158,7 +158,7 @@ func Reflector[S, A any](h *H, l optics.Reflector[A], addr func(*S) *A) {
 		h.Failf("Putt returned %T %v, not the struct pointer it was given", ret, ret)
 		return
 	}
-	if d := ar.Diff(before, ar.Snapshot(), Patch{unsafe.Pointer(focus), unsafe.Pointer(&v1), at}); d != "" {
+	if d := ar.Diff(before, ar.Snapshot(), Patch{Addr: unsafe.Pointer(focus), Src: unsafe.Pointer(&v1), Type: at}); d != "" {
 		h.Failf("Putt(%s): %s", show(v1), d)
 		return
 	}
@@ -168,14 +168,14 @@ func Reflector[S, A any](h *H, l optics.Reflector[A], addr func(*S) *A) {
 		return
 	}
 	l.Putt(p, v2)
-	if d := ar.Diff(before, ar.Snapshot(), Patch{unsafe.Pointer(focus), unsafe.Pointer(&v2), at}); d != "" {
+	if d := ar.Diff(before, ar.Snapshot(), Patch{Addr: unsafe.Pointer(focus), Src: unsafe.Pointer(&v2), Type: at}); d != "" {
 		h.Failf("PutPut violated: %s", d)
 		return
 	}
 	// GetPut
 	before = ar.Snapshot()
 	l.Putt(p, l.Gett(p))
-	if d := ar.Diff(before, ar.Snapshot(), Patch{unsafe.Pointer(focus), unsafe.Pointer(focus), at}); d != "" {
+	if d := ar.Diff(before, ar.Snapshot(), Patch{Addr: unsafe.Pointer(focus), Src: unsafe.Pointer(focus), Type: at}); d != "" {
 		h.Failf("GetPut violated: %s", d)
 		return
 	}
